@@ -892,6 +892,9 @@ fn eval_streams(case: &StreamCase, ev: &mut Evaluation) {
         log.push('\n');
     }
     add_fault_counters(ev, &trace.counts);
+    if trace.harness_error.is_some() {
+        ev.harness_error = trace.harness_error.clone();
+    }
     if !trace.failures.is_empty() || trace.aborted.is_some() {
         ev.bump("not_judged_machinery_failure");
     }
